@@ -78,7 +78,7 @@ def to_case(c):
         "lon": list(c["lon"]),
         "wrap": c["wrap"],
         "poles": list(c["poles"]),
-        "fams": sorted(c["fams"]),
+        "fams": sorted(c["fams"]) + (["one_hemisphere"] if (all(v[2] > 0 for v in f) or all(v[2] < 0 for v in f)) else []),
     }
 
 
@@ -179,20 +179,55 @@ def outside(f, m, lat_lo, lat_hi, lon_lo, lon_hi, per_kind=2):
     return [x for kind in ("lat_lo", "lat_hi", "lon") for x in bad[kind][:per_kind]]
 
 
+def real_face(item):
+    """The face handed to the implementation: the judged face itself, or its image under the scale maps
+    of BoundsScale.tla (Python integers; TLC proved that the deciding features are inherited)."""
+    return item.get("fx", item["f"])
+
+
+def edge_extreme(f, i, sign):
+    """Latitude of the interior extreme (top: sign=1, bottom: sign=-1) of edge i (1-based) of the integer face f:
+    tan^2 = (nx^2 + ny^2) / nz^2 with n = a x b, evaluated from exact integers."""
+    a, b = f[i - 1], f[i % len(f)]
+    nx = a[1] * b[2] - a[2] * b[1]
+    ny = a[2] * b[0] - a[0] * b[2]
+    nz = a[0] * b[1] - a[1] * b[0]
+    return sign * math.atan2(math.sqrt(nx * nx + ny * ny), abs(nz))
+
+
+def feature_lat(f, ft, sign):
+    if ft[0] == "c":
+        return corner_lat(f[ft[1] - 1])
+    if ft[0] == "e":
+        return edge_extreme(f, ft[1], sign)
+    return ft[1] * math.pi / 2
+
+
 def expected_box(item):
-    f = item["f"]
+    f = real_face(item)
     if item["lon"][0] == "full":
         lo, hi = 0.0, TWO_PI
     else:
         lo, hi = corner_lon(f[item["lon"][1] - 1]), corner_lon(f[item["lon"][2] - 1])
-    return lat_val(item["latmin"]), lat_val(item["latmax"]), lo, hi
+    return feature_lat(f, item["amin"][0], -1), feature_lat(f, item["amax"][0], 1), lo, hi
+
+
+SNAP_CAP = math.acos(1.0 - 1e-8)  # the library treats |z| > 1 - 1e-8 as the pole (documented snap): 1.414e-4 rad
+
+
+def lat_match(exact, reported):
+    """Within the property's 1e-9, or both inside the cap that the library's documented pole snap identifies with the pole."""
+    if abs(exact - reported) <= TOL:
+        return True
+    cap = math.pi / 2 - SNAP_CAP
+    return (exact >= cap and reported >= cap) or (exact <= -cap and reported <= -cap)
 
 
 # ----------------------------------------------------------------------------- replay
 def pole_lon_deg(item):
     """Longitude handed over for a corner at a pole: 0 (what xyz -> lonlat gives), or the west-most corner's."""
     if item["plon"] == "west" and item["lon"][0] == "iv":
-        w = item["f"][item["lon"][1] - 1]
+        w = real_face(item)[item["lon"][1] - 1]
         return math.degrees(math.atan2(w[1], w[0]))
     return 0.0
 
@@ -204,7 +239,7 @@ def build_grid(items):
     _, FILL = hux.consts()
     lon, lat, idx, conn = [], [], {}, []
     for it in items:
-        g = it["f"][::-1] if it["cw"] else it["f"]
+        g = real_face(it)[::-1] if it["cw"] else real_face(it)
         row = []
         for v in g:
             x, y, z = v
@@ -245,8 +280,8 @@ def bounds_of(items, out):
 
 
 def record(item, b, m):
-    f = item["f"]
-    rec = {"id": item["id"], "f": f, "cw": item["cw"], "plon": item["plon"]}
+    f = real_face(item)
+    rec = {"id": item["id"], "f": item["f"], "cw": item["cw"], "plon": item["plon"], "turned": bool(item.get("turned", False)), "fam": item.get("fam", "lattice")}
     if isinstance(b, str):
         rec.update(raised=True, error=b, mx=[], mn=[], lo=[], hi=[], full=False, wrap=False, encl=[])
         return rec
@@ -256,16 +291,17 @@ def record(item, b, m):
         # a fill value or NaN left in the box: no feature can match it
         rec.update(raised=False, mx=[], mn=[], lo=[], hi=[], full=False, wrap=False, encl=[["nonfinite", 0, 0]], box=[repr(x) for x in vals])
         return rec
+    n = len(f)
     cl = [corner_lat(v) for v in f]
-    mx = [["c", j + 1] for j in range(len(f)) if abs(cl[j] - lat_hi) <= TOL]
-    mn = [["c", j + 1] for j in range(len(f)) if abs(cl[j] - lat_lo) <= TOL]
-    mx += [["e", t[0]] for t in item["tops"] if abs(lat_val([1, t[1], t[2]]) - lat_hi) <= TOL]
-    mn += [["e", t[0]] for t in item["bots"] if abs(lat_val([-1, t[1], t[2]]) - lat_lo) <= TOL]
-    if abs(lat_hi - math.pi / 2) <= TOL:
+    mx = [["c", j + 1] for j in range(n) if lat_match(cl[j], lat_hi)]
+    mn = [["c", j + 1] for j in range(n) if lat_match(cl[j], lat_lo)]
+    mx += [["e", t[0]] for t in item["tops"] if lat_match(edge_extreme(f, t[0], 1), lat_hi)]
+    mn += [["e", t[0]] for t in item["bots"] if lat_match(edge_extreme(f, t[0], -1), lat_lo)]
+    if lat_match(math.pi / 2, lat_hi):
         mx.append(["p", 1])
-    if abs(lat_lo + math.pi / 2) <= TOL:
+    if lat_match(-math.pi / 2, lat_lo):
         mn.append(["p", -1])
-    nonpole = [j for j in range(len(f)) if f[j][0] != 0 or f[j][1] != 0]
+    nonpole = [j for j in range(n) if f[j][0] != 0 or f[j][1] != 0]
     lo = [j + 1 for j in nonpole if circ_diff(corner_lon(f[j]), lon_lo) <= TOL]
     hi = [j + 1 for j in nonpole if circ_diff(corner_lon(f[j]), lon_hi) <= TOL]
     rec.update(
@@ -286,6 +322,13 @@ def record(item, b, m):
     return rec
 
 
+def work_item(x):
+    """One unit of replay work for the pool: a batch of generated faces, or one sample grid file."""
+    if x[0] == "grid":
+        return gridfile_check(x[1])
+    return replay_batch(x)
+
+
 def replay_batch(batch):
     items, m = batch
     out = {}
@@ -296,7 +339,7 @@ def replay_batch(batch):
 # ----------------------------------------------------------------------------- judge
 def judge(ctx, recs, workers=8):
     path = os.path.join(ctx.work, "rec_%d.ndjson" % len(ctx.tlc_runs))
-    keep = ("id", "f", "cw", "plon", "raised", "mx", "mn", "lo", "hi", "full", "wrap", "encl")
+    keep = ("id", "f", "cw", "plon", "turned", "fam", "raised", "mx", "mn", "lo", "hi", "full", "wrap", "encl")
     with open(path, "w") as fh:
         for r in recs:
             fh.write(json.dumps({k: r[k] for k in keep}) + "\n")
@@ -414,6 +457,206 @@ def lonbox_traces(ctx, rng, n):
     os.remove(path)
 
 
+# ----------------------------------------------------------------------------- small faces (BoundsScale.tla)
+M0 = 18
+PQS = [(1, 0), (-1, 0), (1, 1), (2, 1), (-1, 2), (0, 1), (-2, -1), (1, -2)]  # (1, 0): across the prime meridian, (-1, 0): the antimeridian
+SCALES = [(100, 1), (1000, 1), (10**4, 1), (10**5, 1), (100, 10), (100, 100), (100, 1000), (1000, 100), (10**4, 10)]  # (M, N)
+
+
+def scale_cfg(mode, invs, maxn=6, pre=1, grow=1, seed=0):
+    return (
+        "INIT Init\nNEXT Next\nCONSTANTS\n Mode = \"%s\"\n MaxN = %d\n M0 = %d\n MSet = {19, 21, 24}\n SMax = 2\n PreMod = %d\n GrowMod = %d\n Seed = %d\n"
+        % (mode, maxn, M0, pre, grow, seed)
+        + "".join("INVARIANT %s\n" % i for i in invs)
+        + "CHECK_DEADLOCK FALSE\n"
+    )
+
+
+def generate_small(ctx, what, pre, grow):
+    """Planar bases x centre latitudes; TLC proves the scale law on each and emits S_M0,s(B) with its exact bounds."""
+    r = ctx.tlc_ok(
+        "BoundsScale",
+        scale_cfg("planar", ["LawSmall", "LawSmallPolar", "SmallClosedForm", "Emit"], pre=pre, grow=grow, seed=ctx.seed % 1000),
+        what=what,
+        workers=8,
+        timeout=3000,
+    )
+    cases = []
+    for v in parse_tagged(r.out):
+        c = to_case(v[1])
+        c["base"] = [list(p) for p in v[1]["base"]]
+        c["s"] = v[1]["s"]
+        c["key"] = "S:%d:%s" % (c["s"], "|".join("%d,%d" % tuple(p) for p in c["base"]))
+        cases.append(c)
+    if len(cases) != r.distinct - 25 * 5:
+        raise Machinery("small-face generator: %d cases for %d states" % (len(cases), r.distinct))
+    cases.sort(key=lambda c: c["key"])
+    return cases
+
+
+def prove_lattice_scale_laws(ctx, cases):
+    """LawPolar (N = 2, 3) and LawTurn (all PQ) on the very lattice faces whose polar images are replayed."""
+    path = os.path.join(ctx.work, "lawfaces_%d.ndjson" % len(ctx.tlc_runs))
+    with open(path, "w") as fh:
+        for c in cases:
+            fh.write(json.dumps({"f": c["f"]}) + "\n")
+    r = ctx.tlc_ok(
+        "BoundsScale",
+        scale_cfg("file", ["LawPolar", "LawTurn"]),
+        what="polar-scaling and turn laws (features inherited) on %d lattice faces" % len(cases),
+        workers=8,
+        env={"FACE_FILE": path},
+        timeout=3000,
+    )
+    os.remove(path)
+    return r
+
+
+def scale_map(v, pq, n):
+    p, q = pq
+    return [p * v[0] - q * v[1], q * v[0] + p * v[1], n * v[2]]
+
+
+def expand_small(cases, rng, per_case):
+    items = []
+    for c in cases:
+        for _ in range(per_case):
+            m, n = rng.choice(SCALES)
+            if c["s"] == 0:
+                n = 1  # polar scaling of an equator-centred face stretches it instead of moving it
+            pq = rng.choice(PQS)
+            cw = rng.random() < 0.5
+            it = dict(c)
+            it["fx"] = [scale_map([m, y, c["s"] * m + z], pq, n) for y, z in c["base"]]
+            it.update(cw=cw, plon="zero", turned=pq != (1, 0), fam="small")
+            it["id"] = "%s:M%d:N%d:pq%d,%d:%s" % (c["key"], m, n, pq[0], pq[1], "cw" if cw else "ccw")
+            items.append(it)
+    return items
+
+
+def expand_polar(cases, rng, per_case):
+    """Lattice faces inside one hemisphere, shrunk towards their pole by P_N (optionally turned)."""
+    items = []
+    for c in cases:
+        for _ in range(per_case):
+            n = rng.choice([10, 100, 1000])
+            pq = rng.choice(PQS)
+            cw = rng.random() < 0.5
+            plons = ["zero", "west"] if ("cornerpole" in c["fams"] and c["lon"][0] == "iv") else ["zero"]
+            for pl in plons:
+                it = dict(c)
+                it["fx"] = [scale_map(v, pq, n) for v in c["f"]]
+                it.update(cw=cw, plon=pl, turned=pq != (1, 0), fam="polar")
+                it["id"] = "P:%s:N%d:pq%d,%d:%s%s" % (c["key"], n, pq[0], pq[1], "cw" if cw else "ccw", ":pw" if pl == "west" else "")
+                items.append(it)
+    return items
+
+
+# ----------------------------------------------------------------------------- faces of the repository's sample grids (float oracle)
+GRID_FILES = [
+    ("outCSne8", "exodus/outCSne8/outCSne8.g", {}),
+    ("quad-hexagon", "ugrid/quad-hexagon/grid.nc", {}),
+    ("mpas-QU-1920km", "mpas/QU/mesh.QU.1920km.151026.nc", {}),
+    ("mpas-QU-1920km-dual", "mpas/QU/mesh.QU.1920km.151026.nc", {"use_dual": True}),
+    ("geoflow-small", "ugrid/geoflow-small/grid.nc", {}),
+]
+
+
+def float_oracle(v):
+    """Bounds of a convex face from float unit vectors (counter-clockwise).  NO exact oracle here: plain
+    floating point, independent of uxarray's helpers.  Returns None when the face is not judged (not convex,
+    a pole within 1e-9 of the boundary, a corner inside the pole snap cap, longitude extent >= 180 degrees)."""
+    n = len(v)
+
+    def det(a, b, c):
+        return a[0] * (b[1] * c[2] - b[2] * c[1]) - a[1] * (b[0] * c[2] - b[2] * c[0]) + a[2] * (b[0] * c[1] - b[1] * c[0])
+
+    for i in range(n):
+        for w in range(n):
+            if w != i and w != (i + 1) % n and det(v[i], v[(i + 1) % n], v[w]) < 1e-13:
+                return None
+    if any(math.hypot(p[0], p[1]) < 2 * SNAP_CAP for p in v):
+        return None
+    nz = [v[i][0] * v[(i + 1) % n][1] - v[i][1] * v[(i + 1) % n][0] for i in range(n)]
+    if min(abs(x) for x in nz) < 1e-9:
+        return None
+    north, south = all(x > 0 for x in nz), all(x < 0 for x in nz)
+    lats = [math.atan2(p[2], math.hypot(p[0], p[1])) for p in v]
+    hi, lo = max(lats), min(lats)
+    for i in range(n):
+        a, b = v[i], v[(i + 1) % n]
+        nx, ny, nzz = a[1] * b[2] - a[2] * b[1], a[2] * b[0] - a[0] * b[2], a[0] * b[1] - a[1] * b[0]
+        top = math.atan2(math.hypot(nx, ny), abs(nzz))
+        if a[1] * nx - a[0] * ny > 0 and b[0] * ny - b[1] * nx > 0:
+            hi = max(hi, top)
+        if a[1] * nx - a[0] * ny < 0 and b[0] * ny - b[1] * nx < 0:
+            lo = min(lo, -top)
+    if north:
+        return lo, math.pi / 2, 0.0, TWO_PI
+    if south:
+        return -math.pi / 2, hi, 0.0, TWO_PI
+    lons = sorted(math.atan2(p[1], p[0]) % TWO_PI for p in v)
+    gaps = [(lons[(i + 1) % n] - lons[i]) % TWO_PI for i in range(n)]
+    k = max(range(n), key=lambda i: gaps[i])
+    if TWO_PI - gaps[k] >= math.pi - 1e-6:
+        return None
+    return lo, hi, lons[(k + 1) % n], lons[k]
+
+
+def gridfile_check(spec):
+    import numpy as np
+
+    name, path, kw, m = spec
+    ux = hux.import_ux()
+    out = {"name": name, "failures": [], "judged": 0, "skipped": 0, "n_face": 0}
+    try:
+        g = ux.open_grid(os.path.join(hux.REPO, "test", "meshfiles", path), **kw)
+        conn = np.asarray(g.face_node_connectivity.values)
+        npf = np.asarray(g.n_nodes_per_face.values)
+        lon = np.deg2rad(np.asarray(g.node_lon.values, dtype=float))
+        lat = np.deg2rad(np.asarray(g.node_lat.values, dtype=float))
+    except Exception as e:  # noqa - reading the sample file is not what C13 is about
+        out["unreadable"] = "%s: %s" % (type(e).__name__, str(e)[:160])
+        return out
+    out["n_face"] = int(conn.shape[0])
+    try:
+        b = np.asarray(g.bounds.values, dtype=float)
+    except Exception as e:  # noqa - the property promises a value
+        out["failures"].append({"face": -1, "clause": "FileValue", "detail": "%s: %s" % (type(e).__name__, str(e)[:160])})
+        return out
+    for k in range(conn.shape[0]):
+        ids = [int(x) for x in conn[k, : int(npf[k])]]
+        v = [(math.cos(lat[i]) * math.cos(lon[i]), math.cos(lat[i]) * math.sin(lon[i]), math.sin(lat[i])) for i in ids]
+        if det3(v[0], v[1], v[2]) < 0:
+            v = v[::-1]
+        e = float_oracle(v)
+        if e is None:
+            out["skipped"] += 1
+            continue
+        out["judged"] += 1
+        (lat_lo, lat_hi), (lon_lo, lon_hi) = b[k].tolist()
+        bad = []
+        if not lat_match(e[0], lat_lo):
+            bad.append("FileLatMin")
+        if not lat_match(e[1], lat_hi):
+            bad.append("FileLatMax")
+        if e[3] - e[2] >= TWO_PI - TOL:
+            if not lon_hi - lon_lo >= TWO_PI - TOL:
+                bad.append("FileLon")
+        elif circ_diff(e[2], lon_lo) > TOL or circ_diff(e[3], lon_hi) > TOL or (lon_hi - lon_lo >= TWO_PI - TOL):
+            bad.append("FileLon")
+        if outside(v, m, lat_lo, lat_hi, lon_lo, lon_hi):
+            bad.append("FileEnclosure")
+        for clause in bad:
+            if len(out["failures"]) < 50:
+                out["failures"].append({"face": k, "clause": clause, "reported": b[k].tolist(), "float_oracle": list(e), "corners_lonlat_deg": [[math.degrees(lon[i]), math.degrees(lat[i])] for i in ids]})
+    return out
+
+
+def det3(a, b, c):
+    return a[0] * (b[1] * c[2] - b[2] * c[1]) - a[1] * (b[0] * c[2] - b[2] * c[0]) + a[2] * (b[0] * c[1] - b[1] * c[0])
+
+
 # ----------------------------------------------------------------------------- run
 def expand(cases, rng, both_dirs=True):
     """Cases -> replay items: both traversal directions; a corner at a pole with longitude 0 and with
@@ -486,10 +729,28 @@ def run(ctx):
     cat_faces = catalogue_faces()
     cat, skipped = generate_file(ctx, cat_faces, "catalogue faces (3..8-gons) under Rot24 x start corner: quantifier membership and expected bounds")
     ctx.note("catalogue_faces_outside_quantifier", len(skipped))
-    ctx.note("generated_cases", {"triangles_c2": len(tri), "grown_4_to_8_gons_c2": len(big), "faces_c3": len(k3), "catalogue": len(cat)})
+    # small faces: planar bases under the scale laws, and one-hemisphere |c|<=2 lattice faces shrunk towards their pole
+    small = generate_small(
+        ctx,
+        "scale law on planar bases (|y|,|z|<=2, 3..6 corners) x centre latitudes tan = -2..2: features of (M, y, sM+z) equal for M = 18, 19, 21, 24 "
+        "and equal to the closed form; emitted with exact bounds at M = 18",
+        pre=6 if thorough else 40,
+        grow=6 if thorough else 8,
+    )
+    polar_bases = [c for c in tri + big if "one_hemisphere" in c["fams"]]
+    if not thorough:
+        polar_bases = rng.sample(polar_bases, min(len(polar_bases), 700))
+    elif len(polar_bases) > 12000:
+        polar_bases = rng.sample(polar_bases, 12000)
+    prove_lattice_scale_laws(ctx, polar_bases)
+    ctx.note(
+        "generated_cases",
+        {"triangles_c2": len(tri), "grown_4_to_8_gons_c2": len(big), "faces_c3": len(k3), "catalogue": len(cat), "small_face_bases": len(small), "polar_bases": len(polar_bases)},
+    )
 
     # 3. replay
     items = expand(tri, rng, both_dirs=not thorough) + expand(big, rng) + expand(k3, rng) + expand(cat, rng)
+    items += expand_small(small, rng, 3 if thorough else 2) + expand_polar(polar_bases, rng, 2 if thorough else 1)
     seen = set()
     uniq = []
     for it in items:
@@ -499,7 +760,9 @@ def run(ctx):
     items = uniq
     bsize = 256
     batches = [(items[k : k + bsize], m_samples) for k in range(0, len(items), bsize)]
-    recs = [r for b in pmap(replay_batch, batches, chunk=1) for r in b]
+    grid_specs = [("grid", (name, path, kw, m_samples)) for name, path, kw in GRID_FILES]
+    done = pmap(work_item, grid_specs + batches, chunk=1)
+    grid_results, recs = done[: len(grid_specs)], [r for b in done[len(grid_specs) :] for r in b]
     bad = [r for r in recs if "oracle_bad" in r]
     if bad:
         raise Machinery("the specification's own box does not enclose the sampled boundary of %s: %s" % (bad[0]["id"], bad[0]["oracle_bad"]))
@@ -511,8 +774,9 @@ def run(ctx):
     fam_count = {}
     hemi = {"one_hemisphere": 0, "touching_or_crossing_equator": 0}
     for it in items:
-        ctx.count(1, (it["key"], it["cw"]) if it["fams"] else None)
-        for fam in it["fams"] or ["plain"]:
+        targeted = [x for x in it["fams"] if x != "one_hemisphere"]
+        ctx.count(1, (it["id"] if "fx" in it else it["key"], it["cw"]) if targeted else None)
+        for fam in targeted or ["plain"]:
             fam_count[fam] = fam_count.get(fam, 0) + 1
         z = [v[2] for v in it["f"]]
         hemi["one_hemisphere" if (all(x > 0 for x in z) or all(x < 0 for x in z)) else "touching_or_crossing_equator"] += 1
@@ -534,6 +798,19 @@ def run(ctx):
             n_fail[clause] = n_fail.get(clause, 0) + 1
             ctx.violation(rid, clause, detail={"failed": failed, "encl": r.get("encl")}, sig=violation_sig(clause, sig, r), replay=replay)
     ctx.note("failed_clause_counts", n_fail)
+    # 5. faces of the repository's sample grids: float oracle only (no exact oracle for arbitrary float corners)
+    gsum = {}
+    for g in grid_results:
+        gsum[g["name"]] = {k: g[k] for k in ("n_face", "judged", "skipped") if k in g}
+        if "unreadable" in g:
+            gsum[g["name"]]["unreadable"] = g["unreadable"]
+            print("INFO: sample grid %s could not be read (%s): not judged" % (g["name"], g["unreadable"]))
+            continue
+        ctx.traces += g["judged"]
+        ctx.count(g["judged"])
+        for fl in g["failures"]:
+            ctx.violation("grid:%s:face%d" % (g["name"], fl["face"]), fl["clause"], detail=fl, sig={"source": "sample_grid", "grid": g["name"], "oracle": "float"}, replay=fl)
+    ctx.note("sample_grids_float_oracle", gsum)
     ctx.note("faces_with_a_failed_clause", len(verdicts))
     for it in items[:1] + items[len(items) // 2 : len(items) // 2 + 1] + items[-1:]:
         r = rec_by_id[it["id"]]
@@ -551,7 +828,10 @@ def run(ctx):
         "TLC's evaluator, the CommunityModules Json reader",
         "float evaluation of exact descriptors (atan2 / sqrt) and the property's 1e-9 tolerance are applied by the harness",
         "enclosure is sampled at %d exact-parameter points per edge; the tightness clauses against the exact extremes make it complete for lattice faces" % (m_samples + 1),
-        "faces are lattice faces (|c| <= 3): large by mesh standards, which is inside the property's quantifier",
+        "lattice faces (|c| <= 3) are 10..170 degrees wide; small faces (down to ~1e-5 rad, generic positions, across both meridians, next to / around / at a pole) "
+        "are images of TLC-judged faces under integer maps whose feature-inheritance laws TLC proves for small scale factors (BoundsScale.tla) and that hold for all by the stated polynomial argument",
+        "latitudes inside the library's documented pole snap (|z| > 1 - 1e-8, 1.4e-4 rad) are identified with the pole; scale factors keep every non-pole corner outside it",
+        "faces of the sample grids (outCSne8, quad-hexagon, MPAS QU 1920 km primal and dual, geoflow-small) are judged against a plain floating-point oracle and sampled enclosure: no exact oracle there",
     ]
 
 
